@@ -35,19 +35,21 @@ RULE = ('RandomChoice: probability vectors of 1..1e5 items (float64/float32; lea
         'a case is non-trivial when distinct by content hash and (for choice) has >= 1 item and >= 1 draw')
 TRUSTED = [
     'Coq 8.16.1 kernel incl. vm_compute (no native_compute)',
-    'all 15 theorems closed under the global context (no axioms); C08_choice is closed over eight order/monotonicity '
-    'premises on the carrier (proved for the rationals: C08_choice_Q); that finite IEEE doubles without overflow meet '
+    'all 22 theorems closed under the global context (no axioms); C08_choice / C08_choice_accepted are closed over eight / thirteen order and monotonicity '
+    'premises on the carrier (proved for the rationals: C08_choice_Q, C08_choice_accepted_Q); that finite IEEE doubles without overflow meet '
     'them (monotone rounding, x/x = 1, 0/x = 0) is a trusted reading, exercised bit-exactly by the correspondence',
     'the generator is an abstract deterministic machine (Section variables rng/seed_rng/draw): MT19937 itself is not modelled',
     'generate_background_events / generate_signal_events are arbitrary state-passing functions of the service they are '
     'handed (premise: all randomness flows through the passed RandomStateService - checked by the request traces, the '
     'equal-seed runs and a static scan for np.random.* globals)',
-    'translator/py2coq.py (72 kernels of G_random.v pinned by K_* lemmas)',
+    'translator/py2coq.py (73 kernels of G_random.v pinned by K_* lemmas)',
     'extraction (ExtrOcamlBasic only) + ocaml/c08/driver.ml + ocaml/common/numf.ml for the float run of RandomChoice',
     'np.searchsorted on a non-decreasing table = number of entries <= v (side=right); np.cumsum = sequential sum; '
     'np.sum in _assert_probabilities read left-to-right (decision kept away from atol)',
     'hand model M_Random.v of control flow and of which service each call receives, validated by this correspondence',
-    'an explicitly passed minimizer_rss is assumed to be a different object than rss (Python aliasing not modelled)',
+    'the aliased call do_trial(rss, minimizer_rss=rss) is modelled separately (do_trial_aliased, C08_alias_partial / _refuted)',
+    'signal generation: the consequences of the drawn candidates (invalid events per group, valid events per re-draw) are oracles; '
+    'the unbounded re-draw loop carries fuel (C08_signal_redraw_terminates / _diverges)',
 ]
 
 IMPORTS = ('From Coq Require Import ZArith List Bool. Import ListNotations. Open Scope Z_scope.\n'
@@ -235,7 +237,7 @@ def malformed_choice_cases(rng):
     out.append(mk([0.5, 0.5 + 1e-3], [0.3], dtype='f4', note='f4-sum-off-1e-3'))
     out.append(mk([0.5, 0.5 + 1e-5], [0.3, 0.9], dtype='f4', note='f4-sum-within-atol'))
     out.append(mk([0.5, 0.5 + 1e-10], [0.3, 0.9], note='f8-sum-within-atol'))
-    # NaN is not rejected by _assert_probabilities (both comparisons are False): model and code must still agree
+    # corpus of fix ff17b6a: NaN entries used to pass _assert_probabilities (both comparisons False); now ValueError
     out.append(mk([0.0, float('nan'), 0.5], [0.3, 0.9, 0.0], note='nan'))
     out.append(mk([0.25, 0.25, float('nan')], [0.1, 0.6], note='nan-last'))
     return out
@@ -261,6 +263,9 @@ def run_choice(ctx, exe, cases):
             choice_predicate(ctx, c, impl)
         else:
             ctx.count('choice:malformed:' + impl[0] + (':' + impl[1] if impl[0] == 'Err' else ''))
+            if c['shape'].startswith('malformed:nan') and impl != ['Err', 'ValueError']:
+                ctx.violation('RandomChoice.__call__', 'nan-probability-accepted', 'a probability vector containing NaN was accepted',
+                              case=c, impl=impl, predicate='NaN is not a probability')
         impls.append(impl)
         lines.append(model_line(c))
         keep.append(c)
@@ -664,13 +669,16 @@ def gen_trial_cfg(rng, ntrials, converging=False):
             sc = [(0, 1)] * k + [(0, 0)]
         scripts.append(sc)
     nds = rng.choice([1, 2, 3])
-    return {'kind': 'trial', 'seed': rng.choice([0, 0, 1, 5, 77, 2 ** 31 + 3, 123456]), 'ntrials': ntrials,
+    c = {'kind': 'trial', 'seed': rng.choice([0, 0, 1, 5, 77, 2 ** 31 + 3, 123456]), 'ntrials': ntrials,
             'maxrep': maxrep, 'nfloat': rng.choice([1, 2, 3]), 'scripts': scripts,
             'bkg_means': [float(rng.choice([0.5, 2.0, 5.0, 9.5])) for _ in range(nds)],
             'bkg_poisson': rng.random() < 0.7, 'scramble': rng.random() < 0.7,
             'mean_n_sig': float(rng.choice([0, 0, 3, 7])), 'sig_poisson': rng.random() < 0.7,
             'poisson_answers': [rng.randint(0, 12) for _ in range(4 * ntrials * 4)],
-            'explicit_minimizer_rss': rng.random() < 0.25}
+            'explicit_minimizer_rss': rng.random() < 0.25, 'alias': rng.random() < 0.12}
+    if c['alias']:
+        c['explicit_minimizer_rss'] = False
+    return c
 
 
 def run_trials_impl(cfgd, recorder_table=True):
@@ -681,6 +689,8 @@ def run_trials_impl(cfgd, recorder_table=True):
         ana = build_analysis(cfgd)
         rss = RandomStateService(seed=cfgd['seed'])
         mrss = RandomStateService(seed=cfgd['seed'] + 1000) if cfgd['explicit_minimizer_rss'] else None
+        if cfgd.get('alias'):
+            mrss = rss          # the caller hands the same service for both roles
         kw = dict(mean_n_sig=cfgd['mean_n_sig'], bkg_kwargs={'poisson': cfgd['bkg_poisson']},
                   sig_kwargs={'poisson': cfgd['sig_poisson']}, minimizer_rss=mrss)
         outs = []
@@ -742,6 +752,14 @@ def trial_model_expr(cfgd):
         last = f'({str(bool(sc[-1][0])).lower()}, {str(bool(sc[-1][1])).lower()})'
         impls.append(f'(fun (k : nat) (_ : option Z) => nth k {lst} {last})')
     mr = (f'(Some (rss_new tm_rng (tm_seed {table}) {zlit(cfgd["seed"] + 1000)}))' if cfgd['explicit_minimizer_rss'] else 'None')
+    if cfgd.get('alias'):
+        return (f"(fix go (impls : list (nat -> option Z -> bool * bool)) (r : rss tm_rng) "
+                f": list (res (Z * res Z * (Z * list req) * (Z * list req))) := "
+                f"match impls with [] => [] | impl :: rest => "
+                f"match do_trial_aliased {mach} tm_draw impl (list Z) (list Z) {bkg} {sig} r {cfgd['maxrep']} {cfgd['nfloat']} with "
+                f"| Ok (_, sd, fit, r') => Ok (sd, fit, tm_log r', (0, [])) :: "
+                f"go rest (Build_rss tm_rng (rs_seed r') (fst (rs_st r'), [])) "
+                f"| Err e => [Err e] end end) [{'; '.join(impls)}] (rss_new tm_rng (tm_seed {table}) {zlit(cfgd['seed'])})")
     # trial by trial so that the minimiser service of every trial is observable
     return (f"(fix go (impls : list (nat -> option Z -> bool * bool)) (r : rss tm_rng) (mr : option (rss tm_rng)) "
             f": list (res (Z * res Z * (Z * list req) * (Z * list req))) := "
@@ -752,10 +770,24 @@ def trial_model_expr(cfgd):
             f"| Err e => [Err e] end end) [{'; '.join(impls)}] (rss_new tm_rng (tm_seed {table}) {zlit(cfgd['seed'])}) {mr}")
 
 
+
 def split_trial_logs(cfgd, log):
     """per trial: requests on the data service, requests on the minimiser service, seed of the minimiser service.
     None when a request went to any other service or a data request follows a minimiser request."""
     sid_seed = {e[0]: e[2] for e in log if len(e) > 1 and e[1] == 'new'}
+    if cfgd.get('alias'):
+        trials = []
+        for e in log:
+            if e == ('T',):
+                trials.append({'data': [], 'min': [], 'min_sid': None, 'min_seed': 0})
+            elif e[1] == 'new':
+                if e[0] != 0 or trials:
+                    return None
+            elif e[0] != 0 or not trials:
+                return None
+            else:
+                trials[-1]['data'].append(e)
+        return trials
     data_sid = 0
     explicit_sid = 1 if cfgd['explicit_minimizer_rss'] else None
     trials, cur = [], None
@@ -834,6 +866,8 @@ def run_trials(ctx, only=None):
         cfgs.append(base)
         cfgs.append(dict(base, seed=0, maxrep=0, scripts=[[(0, 1)], [(0, 1)]]))
         cfgs.append(dict(base, explicit_minimizer_rss=True, scripts=[[(0, 1), (1, 1)], [(0, 1), (0, 1), (1, 0)]]))
+        cfgs.append(dict(base, alias=True, scripts=[[(0, 1), (0, 1), (1, 1)], [(1, 1)]]))
+        cfgs.append(dict(base, alias=True, seed=0, nfloat=3, scripts=[[(1, 1)], [(0, 1), (1, 1)]]))
     while len(cfgs) < n_cfg:
         cfgs.append(gen_trial_cfg(rng, rng.choice([1, 2, 3])))
     exprs, impls = [], []
@@ -847,13 +881,13 @@ def run_trials(ctx, only=None):
         trials = split_trial_logs(c, log)
         restarts = sum(max(0, len(sc) - 1) for sc in c['scripts'])
         ctx.count('trial:with-restarts' if any(len(sc) > 1 for sc in c['scripts']) and c['maxrep'] > 0 else 'trial:no-restarts')
-        ctx.count('trial:explicit-minimizer-rss' if c['explicit_minimizer_rss'] else 'trial:default-minimizer-rss')
+        ctx.count('trial:aliased-minimizer-rss' if c.get('alias') else 'trial:explicit-minimizer-rss' if c['explicit_minimizer_rss'] else 'trial:default-minimizer-rss')
         if trials is None or len(trials) != c['ntrials']:
             ctx.violation('Analysis.do_trial', 'unexpected-stream', 'requests on a service that is neither rss nor the '
                           "trial's minimiser service", case=c, impl=log[:60])
             continue
         # predicate 1: the data service never receives a minimiser request; its requests do not depend on the scripts
-        for t, tr in enumerate(trials):
+        for t, tr in enumerate(trials if not c.get('alias') else []):
             if not c['explicit_minimizer_rss'] and tr['min_seed'] != c['seed']:
                 ctx.violation('Analysis.do_trial', 'minimizer-seed', f"minimiser service seeded with {tr['min_seed']}, not rss.seed",
                               case=c, impl=tr['min_seed'])
@@ -862,7 +896,7 @@ def run_trials(ctx, only=None):
                               case=c, impl=tr['min'])
             if outs[t][0] == 'Ok' and outs[t][2] != c['seed']:
                 ctx.violation('Analysis.do_trial', 'recorded-seed', 'recorded seed differs from rss.seed', case=c, impl=outs[t])
-        want = expected_data_requests(c)
+        want = expected_data_requests(c) if not c.get('alias') else None
         if want is not None and [[req_canon(e) for e in tr['data']] for tr in trials] != want:
             ctx.violation('Analysis.generate_pseudo_data', 'data-request-order', 'requests on rss differ from the documented order '
                           '[poisson] choice [scramble] per dataset, then [poisson] choice for the signal', case=c,
@@ -870,7 +904,7 @@ def run_trials(ctx, only=None):
         impls.append((c, outs, trials))
         exprs.append(trial_model_expr(c))
     # predicate 2 (non-interference, observed): same configuration, different minimiser scripts -> identical data requests
-    for c in cfgs[:ctx.budget(10, 120)]:
+    for c in [x for x in cfgs if not x.get('alias')][:ctx.budget(10, 120)]:
         c2 = dict(c, scripts=[[(1, 1)] for _ in c['scripts']])
         c3 = dict(c, scripts=[[(0, 1)] * 4 + [(1, 1)] for _ in c['scripts']], maxrep=max(c['maxrep'], 7))
         logs = []
@@ -932,6 +966,7 @@ def run_determinism(ctx):
     for i in range(n):
         c = gen_trial_cfg(rng, rng.choice([2, 3, 4]), converging=(i % 5 != 4))
         c['explicit_minimizer_rss'] = False
+        c['alias'] = False
         ncpu = 2 if (i % 4 == 0 and i % 5 != 4) else 1
         ctx.case({'det': c, 'ncpu': ncpu})
         ctx.count(f'determinism:ncpu:{ncpu}')
@@ -1048,6 +1083,7 @@ def run_completion_order(ctx, only=None):
     for i in range(n_ana if only is None else 0):
         c = gen_trial_cfg(rng, 6, converging=True)
         c['explicit_minimizer_rss'] = False
+        c['alias'] = False
         ctx.case({'order-trials': c})
         ctx.count('order:do_trials:ncpu:3')
 
@@ -1064,6 +1100,146 @@ def run_completion_order(ctx, only=None):
         if a != b:
             ctx.violation('Analysis.do_trials', 'completion-order-dependent', 'equal seed and ncpu=3: the record array depends on '
                           'which worker finishes first', case=dict(c, kind='order-trials'), predicate='bytes equal for every completion order')
+
+
+# ===================================================================== the real MC signal generator
+
+def build_sig_generator(nds=2, nshg=2, dec_range=(-0.25, 0.45), shift=0):
+    """the real MCMultiDatasetSignalGenerator (generate_signal_events and the re-draw loop are the real code);
+    __init__ is bypassed: the candidates, MC data and source hypothesis groups are small stand-ins"""
+    from skyllh.core.config import Config
+    from skyllh.core.random import RandomChoice
+    from skyllh.core.signal_generator import MCMultiDatasetSignalGenerator
+    from skyllh.core.storage import DataFieldRecordArray as DFRA
+    g = MCMultiDatasetSignalGenerator.__new__(MCMultiDatasetSignalGenerator)
+    g._cfg = Config()
+
+    class Method:
+        def signal_event_post_sampling_processing(self, shg, meta, events):
+            return events
+
+    class SHG:
+        sig_gen_method = Method()
+
+    class Mgr:
+        shg_list = [SHG() for _ in range(nshg)]
+
+    class Data:
+        pass
+    g._shg_mgr = Mgr()
+    g._data_list = []
+    cands = []
+    for d in range(nds):
+        n = 10 + 3 * d
+        mc = DFRA(np.array([(0.1 * i, -0.5 + 0.1 * i, 2. + i, 1.0) for i in range(n)],
+                           dtype=[('ra', np.float64), ('dec', np.float64), ('log_energy', np.float64), ('mcweight', np.float64)]))
+        dd = Data()
+        dd.mc = mc
+        g._data_list.append(dd)
+        for sh in range(nshg):
+            for i in range(n):
+                cands.append((d, i, sh, 0, 1.0 + (i * 7 + sh + d + shift) % 4))
+    arr = np.array(cands, dtype=[('ds_idx', np.int64), ('ev_idx', np.int64), ('shg_idx', np.int64),
+                                 ('shg_src_idx', np.int64), ('weight', np.float64)])
+    arr['weight'] /= arr['weight'].sum()
+    g._sig_candidates = arr
+    g._sig_candidates_random_choice = RandomChoice(items=arr, probabilities=arr['weight'])
+    g._valid_event_field_ranges_dict_list = [{'dec': dec_range} for _ in range(nds)]
+    return g
+
+
+def run_signal(ctx):
+    """request trace of the real generate_signal_events (+ re-draw loop) vs. `sig_mc` on the logging machine; the
+    oracles of the model (invalid events per group, valid events per re-draw) are read off the run"""
+    from skyllh.core.random import RandomStateService
+    rng = ctx.rng
+    exprs, impls = [], []
+    for i in range(ctx.budget(16, 300)):
+        seed = rng.choice([0, 3, 17, 2 ** 31 + 1])
+        poisson = rng.random() < 0.6
+        mean = rng.randint(0, 9)
+        nans = rng.randint(0, 9)
+        rngk = rng.choice([(-0.25, 0.45), (-1.0, 2.0), (0.0, 0.2), (-0.5, 0.05)])
+        case = {'kind': 'signal', 'seed': seed, 'poisson': poisson, 'mean': mean, 'poisson_answer': nans, 'dec_range': list(rngk),
+                'nds': rng.choice([1, 2, 3]), 'nshg': rng.choice([1, 2])}
+        ctx.case(case)
+        table = {seed: [nans] + [0] * 400} if poisson else {seed: [0] * 400}
+        g = build_sig_generator(case['nds'], case['nshg'], rngk)
+        ev, state = [], {'in_redraw': False}
+        orig_mask = g._get_invalid_events_mask
+        orig_redraw = g._draw_valid_sig_events_for_dataset_and_shg
+        orig_choice = g._sig_candidates_random_choice
+
+        def mask(events, d, _o=orig_mask, _s=state, _e=ev):
+            m = _o(events, d)
+            _e.append(('m', int(np.count_nonzero(m)), len(events), _s['in_redraw']))
+            return m
+
+        def redraw(*a, _o=orig_redraw, _s=state, **k):
+            _s['in_redraw'] = True
+            try:
+                return _o(*a, **k)
+            finally:
+                _s['in_redraw'] = False
+
+        def choice(rss, size, _o=orig_choice, _s=state, _e=ev):
+            _e.append(('c', int(size), _s['in_redraw']))
+            return _o(rss=rss, size=size)
+        g._get_invalid_events_mask = mask
+        g._draw_valid_sig_events_for_dataset_and_shg = redraw
+        g._sig_candidates_random_choice = choice
+        with Recorder(table) as rec:
+            rss = RandomStateService(seed=seed)
+            try:
+                (n, evd) = g.generate_signal_events(rss, mean=float(mean) if poisson else mean, poisson=poisson)
+                out = ['Ok', int(n)]
+            except Exception as ex:
+                out = ['Err', exc_name(ex)]
+            log = [req_canon(e) for e in rec.log if e[1] != 'new']
+            other = [e for e in rec.log if e[0] != 0]
+        nreds = [e[1] for e in ev if e[0] == 'm' and not e[3]]
+        valids = []
+        for j, e in enumerate(ev):
+            if e[0] == 'c' and e[2]:
+                v = 0
+                if j + 1 < len(ev) and ev[j + 1][0] == 'm' and ev[j + 1][3]:
+                    v = ev[j + 1][2] - ev[j + 1][1]
+                valids.append(v)
+        ctx.count('signal:' + ('poisson' if poisson else 'fixed') + (':redraw' if any(nreds) else ''))
+        if other:
+            ctx.violation('MCMultiDatasetSignalGenerator.generate_signal_events', 'unexpected-stream', 'a request went to another service',
+                          case=case, impl=other[:10])
+        if out[0] == 'Ok':
+            tot = sum(len(v) for v in evd.values())
+            lo, hi = rngk
+            bad = [float(x) for v in evd.values() for x in v['dec'] if not (lo <= x <= hi)]
+            if tot != out[1] or bad:
+                ctx.violation('MCMultiDatasetSignalGenerator.generate_signal_events', 'wrong-events',
+                              f'{tot} events for n_signal {out[1]}, {len(bad)} outside the valid range', case=case)
+        sizes = [e[1] for e in log if e[0] == 'random']
+        if out[0] != 'Ok' or len(sizes) != 1 + len(valids):
+            ctx.violation('MCMultiDatasetSignalGenerator.generate_signal_events', 'raises-or-extra-requests', 'raised, or random() requests '
+                          'that are not RandomChoice calls', case=case, impl=[out, log[:20]])
+            continue
+        tbl = f'[({zlit(seed)}, {zlist(([nans] if poisson else []) + [1000 + j for j in range(len(sizes))])})]'
+        gl = '[' + '; '.join(zlit(x) for x in nreds) + ']'
+        vl = zlist([0] + valids)       # answer 1000 = the first choice, 1001.. = the re-draws
+        exprs.append(f"match sig_mc tm_rng Z tm_draw (fun v => v) (fun v => if v =? 1000 then {gl} else []) "
+                     f"(fun _ v => nth (Z.to_nat (v - 1000)) {vl} 0) 500 {str(poisson).lower()} {mean} "
+                     f"(rss_new tm_rng (tm_seed {tbl}) {zlit(seed)}) with Ok (n, r') => Ok (n, snd (tm_log r')) | Err e => Err e end")
+        impls.append((case, out, log))
+    if ctx.model_ok and exprs:
+        vals = common.coq_eval('c08sig', IMPORTS, exprs)
+        for (case, out, log), v in zip(impls, vals):
+            ctx.corr_cases += 1
+            try:
+                m = ['Ok', v[1][0], [coq_req_canon(q) for q in v[1][1]]] if v[0] == 'Ok' else ['Err', v[1]]
+            except Exception:
+                m = ['unparsed', repr(v)[:200]]
+            imp = [out[0], out[1], log] if out[0] == 'Ok' else out
+            if m != imp:
+                ctx.disagree('generate_signal_events.request-trace', case, imp, m)
+
 
 
 # ===================================================================== RandomStateService: seed / reseed
@@ -1160,6 +1336,8 @@ def _b(x):
     """canonical bytes of a result (ndarray, DataFieldRecordArray, tuples of them, scalars)"""
     if isinstance(x, (tuple, list)):
         return b'(' + b'|'.join(_b(y) for y in x) + b')'
+    if isinstance(x, dict):
+        return b'<' + b'|'.join(str(int(k)).encode() + b':' + _b(x[k]) for k in sorted(x)) + b'>'
     if hasattr(x, 'field_name_list'):
         return b'{' + b'|'.join(n.encode() + b'=' + np.ascontiguousarray(x[n]).tobytes() for n in sorted(x.field_name_list)) + b'}'
     if isinstance(x, np.ndarray):
@@ -1278,6 +1456,14 @@ def history_subjects():
                       ('events(data1, mean=2, fixed)', lambda o, r: o.m.generate_events(r, DS(), o.d1, mean=2.0, poisson=False)),
                       ('events(data2, mean=6, poisson)', lambda o, r: o.m.generate_events(r, DS(), o.d2, mean=6.0))],
                      lambda o: o.snap(), None))
+    # --- the real MCMultiDatasetSignalGenerator (generate_signal_events + re-draw loop)
+    subjects.append(('MCMultiDatasetSignalGenerator.generate_signal_events',
+                     [lambda: build_sig_generator(2, 2, (-0.25, 0.45)), lambda: build_sig_generator(3, 1, (-0.5, 0.05), shift=2)],
+                     [('signal(mean=6, poisson)', lambda o, r: o.generate_signal_events(r, mean=6.0)),
+                      ('signal(mean=4, fixed)', lambda o, r: o.generate_signal_events(r, mean=4, poisson=False)),
+                      ('signal(mean=0, fixed)', lambda o, r: o.generate_signal_events(r, mean=0, poisson=False)),
+                      ('signal(mean=9, fixed)', lambda o, r: o.generate_signal_events(r, mean=9, poisson=False))],
+                     lambda o: b''.join(_b(d.mc) for d in o._data_list) + o._sig_candidates.tobytes(), None))
     return subjects
 
 
@@ -1439,6 +1625,7 @@ def run(ctx):
     run_workers(ctx)
     run_completion_order(ctx)
     run_reseed(ctx)
+    run_signal(ctx)
     run_history(ctx)
     run_trials(ctx)
     run_determinism(ctx)
@@ -1478,6 +1665,8 @@ def replay(ctx, rp):
         run_history(ctx)
     elif kind in ('reseed', 'reseed-none'):
         run_reseed(ctx)
+    elif kind == 'signal':
+        run_signal(ctx)
     elif kind == 'static':
         static_scan(ctx)
     else:
